@@ -23,6 +23,10 @@ type C13 struct {
 	prePrune  map[string]bool // consumers having key-prune entries
 	preExists map[string]bool
 	prefixPair bool
+	// OnlySuccessful makes only accepted txs / executed proposals count as events of their consumer (used by C14:
+	// a rejected message must leave every consumer's state untouched)
+	OnlySuccessful bool
+	Prop           string
 }
 
 func NewC13(w *world.World) *C13 { return &C13{} }
@@ -67,7 +71,10 @@ func (m *C13) After(w *world.World, a *world.Action, r *world.StepResult) *Viola
 	if r.Block == nil || r.Chain != "provider" || r.Block.Failed() || !m.preDump {
 		return nil
 	}
-	const P = "C13"
+	P := "C13"
+	if m.Prop != "" {
+		P = m.Prop
+	}
 	m.n++
 	ctx := w.P.Ctx()
 	k := w.P.PApp.ProviderKeeper
@@ -77,10 +84,14 @@ func (m *C13) After(w *world.World, a *world.Action, r *world.StepResult) *Viola
 	// consumers that had an event of their own in this block
 	ev := map[string]bool{}
 	for _, tx := range r.Txs {
-		subjectsOf(*tx.Action, ev)
+		if tx.Action != nil && (!m.OnlySuccessful || tx.OK()) {
+			subjectsOf(*tx.Action, ev)
+		}
 	}
 	for _, g := range r.Gov {
-		subjectsOf(*g.Action, ev)
+		if !m.OnlySuccessful || g.Executed {
+			subjectsOf(*g.Action, ev)
+		}
 	}
 	for _, q := range m.preSpawn {
 		if !q.Time.After(T) {
@@ -142,7 +153,11 @@ func (m *C13) After(w *world.World, a *world.Action, r *world.StepResult) *Viola
 			for s := range ev {
 				subj = append(subj, s)
 			}
-			return violf(P, "foreign-change", "block %d changed state of consumer %q (keys %v) although only consumers %v had events in it", r.Block.Height, id, d, world.SortedStrings(subj))
+			sig := "foreign-change"
+			if m.OnlySuccessful {
+				sig = "rejected-message-changed-state"
+			}
+			return violf(P, sig, "block %d changed state of consumer %q (keys %v) although only consumers %v had (accepted) events in it", r.Block.Height, id, d, world.SortedStrings(subj))
 		}
 	}
 	// label: an id-prefix pair where one side had a destructive event and the other side has iterated key spaces
